@@ -406,5 +406,152 @@ theorem octalVal_ok (d0 d1 d2 : Char) (tail : List Char) (loc : Loc)
   unfold isOct at h0 h1 h2
   simp [octalVal, Scan.next, h0, h1, h2]
 
+/-! ### one step of the string loop per spelling of a character -/
+
+def isQuote (q : Char) : Prop := q = '\'' ∨ q = '"'
+
+theorem lexString_close (q : Char) (raw fmt : Bool) (f : Nat) (rest : List Char) (loc : Loc) (work : List Char) :
+    lexString q raw fmt (f + 1) ⟨q :: rest, loc⟩ work [] = .ok (.strLit work.reverse, ⟨rest, loc.adv q⟩) := by
+  simp [lexString, Scan.next]
+
+theorem lexString_eof (q : Char) (raw fmt : Bool) (f : Nat) (loc : Loc) (work : List Char) (segs : List FSeg) :
+    lexString q raw fmt f ⟨[], loc⟩ work segs = .error ⟨loc⟩ := by
+  cases f <;> rfl
+
+/-- A character written as itself. -/
+theorem lexString_plain (q : Char) (fmt : Bool) (f : Nat) (c : Char) (tail : List Char) (loc : Loc)
+    (work : List Char) (segs : List FSeg) (h1 : c ≠ q) (h2 : c ≠ '\\')
+    (h3 : fmt = true → c ≠ '{' ∧ c ≠ '}') :
+    lexString q false fmt (f + 1) ⟨c :: tail, loc⟩ work segs =
+      lexString q false fmt f ⟨tail, loc.adv c⟩ (c :: work) segs := by
+  cases fmt
+  · simp [lexString, Scan.next, h1, h2]
+  · simp [lexString, Scan.next, h1, h2, (h3 rfl).1, (h3 rfl).2]
+
+/-- In a raw literal every character except the quote is itself. -/
+theorem lexString_rawchar (q : Char) (f : Nat) (c : Char) (tail : List Char) (loc : Loc)
+    (work : List Char) (segs : List FSeg) (h1 : c ≠ q) :
+    lexString q true false (f + 1) ⟨c :: tail, loc⟩ work segs =
+      lexString q true false f ⟨tail, loc.adv c⟩ (c :: work) segs := by
+  simp [lexString, Scan.next, h1]
+
+/-- The named escapes. -/
+def namedEscape (name : Char) (ch : Char) : Prop :=
+  (name = 'a' ∧ ch = Char.ofNat 7) ∨ (name = 'b' ∧ ch = Char.ofNat 8) ∨ (name = 'f' ∧ ch = Char.ofNat 12) ∨
+  (name = 'n' ∧ ch = Char.ofNat 10) ∨ (name = 'r' ∧ ch = Char.ofNat 13) ∨ (name = 't' ∧ ch = Char.ofNat 9) ∨
+  (name = 'v' ∧ ch = Char.ofNat 11) ∨ (name = '\\' ∧ ch = '\\') ∨ (name = '\'' ∧ ch = '\'') ∨
+  (name = '"' ∧ ch = '"')
+
+theorem lexString_named (q : Char) (hq : isQuote q) (fmt : Bool) (f : Nat) (name ch : Char) (tail : List Char)
+    (loc : Loc) (work : List Char) (segs : List FSeg) (h : namedEscape name ch) :
+    lexString q false fmt (f + 1) ⟨'\\' :: name :: tail, loc⟩ work segs =
+      lexString q false fmt f ⟨tail, (loc.adv '\\').adv name⟩ (ch :: work) segs := by
+  rcases hq with rfl | rfl <;>
+  rcases h with ⟨rfl, rfl⟩|⟨rfl, rfl⟩|⟨rfl, rfl⟩|⟨rfl, rfl⟩|⟨rfl, rfl⟩|⟨rfl, rfl⟩|⟨rfl, rfl⟩|⟨rfl, rfl⟩|⟨rfl, rfl⟩|⟨rfl, rfl⟩ <;>
+  simp [lexString, Scan.next]
+
+/-- The introducers of the fixed-width hexadecimal escapes and their widths. -/
+def hexEscape (intro : Char) (n : Nat) : Prop :=
+  (intro = 'x' ∧ n = 2) ∨ (intro = 'X' ∧ n = 2) ∨ (intro = 'u' ∧ n = 4) ∨ (intro = 'U' ∧ n = 8)
+
+/-- What the string loop does after `\` + introducer, in terms of `extractHexChar`. -/
+theorem lexString_hex_unfold (q : Char) (hq : isQuote q) (fmt : Bool) (f : Nat) (intro : Char) (n : Nat)
+    (body : List Char) (loc : Loc) (work : List Char) (segs : List FSeg) (h : hexEscape intro n) :
+    lexString q false fmt (f + 1) ⟨'\\' :: intro :: body, loc⟩ work segs =
+      match extractHexChar n ⟨body, (loc.adv '\\').adv intro⟩ with
+      | .error er => .error er
+      | .ok (ch, s3) => lexString q false fmt f s3 (ch :: work) segs := by
+  rcases hq with rfl | rfl <;>
+  rcases h with ⟨rfl, rfl⟩|⟨rfl, rfl⟩|⟨rfl, rfl⟩|⟨rfl, rfl⟩ <;>
+  rfl
+
+theorem lexString_hex (q : Char) (hq : isQuote q) (fmt : Bool) (f : Nat) (intro : Char) (n : Nat)
+    (hs tail : List Char) (loc : Loc) (work : List Char) (segs : List FSeg) (ch : Char)
+    (h : hexEscape intro n) (hn : hs.length = n) (hhs : ∀ c ∈ hs, (hexDigitVal c).isSome = true)
+    (hv : spelled 16 hs = ch.toNat) :
+    lexString q false fmt (f + 1) ⟨'\\' :: intro :: (hs ++ tail), loc⟩ work segs =
+      lexString q false fmt f ⟨tail, advAll loc ('\\' :: intro :: hs)⟩ (ch :: work) segs := by
+  rw [lexString_hex_unfold q hq fmt f intro n _ loc work segs h,
+    extractHexChar_ok n hs tail _ ch hn hhs hv]
+  rfl
+
+theorem lexString_hex_invalid (q : Char) (hq : isQuote q) (fmt : Bool) (f : Nat) (intro : Char) (n : Nat)
+    (hs tail : List Char) (loc : Loc) (work : List Char) (segs : List FSeg)
+    (h : hexEscape intro n) (hn : hs.length = n) (hhs : ∀ c ∈ hs, (hexDigitVal c).isSome = true)
+    (hv : ¬ (spelled 16 hs).isValidChar) :
+    ∃ e, lexString q false fmt (f + 1) ⟨'\\' :: intro :: (hs ++ tail), loc⟩ work segs = .error e := by
+  rw [lexString_hex_unfold q hq fmt f intro n _ loc work segs h,
+    extractHexChar_invalid n hs tail _ hn hhs hv]
+  exact ⟨_, rfl⟩
+
+theorem lexString_hex_short (q : Char) (hq : isQuote q) (fmt : Bool) (f : Nat) (intro : Char) (n : Nat)
+    (hs tail : List Char) (loc : Loc) (work : List Char) (segs : List FSeg)
+    (h : hexEscape intro n) (hlt : hs.length < n) (hhs : ∀ c ∈ hs, (hexDigitVal c).isSome = true)
+    (ht : ∀ c, tail.head? = some c → hexDigitVal c = none) :
+    ∃ e, lexString q false fmt (f + 1) ⟨'\\' :: intro :: (hs ++ tail), loc⟩ work segs = .error e := by
+  obtain ⟨e, he⟩ := extractHexChar_short hs n tail ((loc.adv '\\').adv intro) hlt hhs ht
+  rw [lexString_hex_unfold q hq fmt f intro n _ loc work segs h, he]
+  exact ⟨_, rfl⟩
+
+/-- What the string loop does after `\` + a decimal digit: the three-digit octal escape. -/
+theorem lexString_oct_unfold (q : Char) (hq : isQuote q) (fmt : Bool) (f : Nat) (d0 : Char)
+    (body : List Char) (loc : Loc) (work : List Char) (segs : List FSeg) (h : isDigit d0 = true) :
+    lexString q false fmt (f + 1) ⟨'\\' :: d0 :: body, loc⟩ work segs =
+      match octalVal d0 ⟨body, (loc.adv '\\').adv d0⟩ with
+      | .error er => .error er
+      | .ok (v, s3) =>
+        match charOfNat? v with
+        | some ch => lexString q false fmt f s3 (ch :: work) segs
+        | none => .error ⟨s3.loc⟩ := by
+  rcases hq with rfl | rfl <;>
+  rcases isDigit_cases d0 h with rfl|rfl|rfl|rfl|rfl|rfl|rfl|rfl|rfl|rfl <;>
+  rfl
+
+theorem isDigit_of_isOct (c : Char) (h : isOct c = true) : isDigit c = true := by
+  rcases isOct_cases c h with rfl|rfl|rfl|rfl|rfl|rfl|rfl|rfl <;> rfl
+
+theorem lexString_oct (q : Char) (hq : isQuote q) (fmt : Bool) (f : Nat) (d0 d1 d2 : Char) (tail : List Char)
+    (loc : Loc) (work : List Char) (segs : List FSeg) (ch : Char)
+    (h0 : isOct d0 = true) (h1 : isOct d1 = true) (h2 : isOct d2 = true)
+    (hv : (d0.toNat - 48) * 64 + (d1.toNat - 48) * 8 + (d2.toNat - 48) = ch.toNat) :
+    lexString q false fmt (f + 1) ⟨'\\' :: d0 :: d1 :: d2 :: tail, loc⟩ work segs =
+      lexString q false fmt f ⟨tail, advAll loc ['\\', d0, d1, d2]⟩ (ch :: work) segs := by
+  rw [lexString_oct_unfold q hq fmt f d0 _ loc work segs (isDigit_of_isOct d0 h0),
+    octalVal_ok d0 d1 d2 tail _ h0 h1 h2]
+  simp only [hv, charOfNat?_toNat]
+  rfl
+
+/-- A digit that is not octal anywhere in the three positions, or fewer than three characters. -/
+theorem octalVal_bad (d0 : Char) (body : List Char) (loc : Loc)
+    (h : body.length < 2 ∨ ∃ d1 d2 t, body = d1 :: d2 :: t ∧ (isOct d0 && isOct d1 && isOct d2) = false) :
+    ∃ e, octalVal d0 ⟨body, loc⟩ = .error e := by
+  rcases h with h | ⟨d1, d2, t, rfl, h⟩
+  · match body, h with
+    | [], _ => exact ⟨_, rfl⟩
+    | [_], _ => exact ⟨_, rfl⟩
+  · unfold isOct at h
+    exact ⟨⟨(loc.adv d1).adv d2⟩, by simp [octalVal, Scan.next, h]⟩
+
+theorem lexString_oct_bad (q : Char) (hq : isQuote q) (fmt : Bool) (f : Nat) (d0 : Char) (body : List Char)
+    (loc : Loc) (work : List Char) (segs : List FSeg) (hd : isDigit d0 = true)
+    (h : body.length < 2 ∨ ∃ d1 d2 t, body = d1 :: d2 :: t ∧ (isOct d0 && isOct d1 && isOct d2) = false) :
+    ∃ e, lexString q false fmt (f + 1) ⟨'\\' :: d0 :: body, loc⟩ work segs = .error e := by
+  obtain ⟨e, he⟩ := octalVal_bad d0 body ((loc.adv '\\').adv d0) h
+  rw [lexString_oct_unfold q hq fmt f d0 _ loc work segs hd, he]
+  exact ⟨_, rfl⟩
+
+/-- `{{` and `}}` in a format string. -/
+theorem lexString_brace (q : Char) (hq : isQuote q) (f : Nat) (c : Char) (tail : List Char) (loc : Loc)
+    (work : List Char) (segs : List FSeg) (hc : c = '{' ∨ c = '}') :
+    lexString q false true (f + 1) ⟨c :: c :: tail, loc⟩ work segs =
+      lexString q false true f ⟨tail, (loc.adv c).adv c⟩ (c :: work) segs := by
+  rcases hq with rfl | rfl <;> rcases hc with rfl | rfl <;> simp [lexString, Scan.next]
+
+/-- A backslash at the very end. -/
+theorem lexString_backslash_eof (q : Char) (hq : isQuote q) (fmt : Bool) (f : Nat) (loc : Loc)
+    (work : List Char) (segs : List FSeg) :
+    ∃ e, lexString q false fmt (f + 1) ⟨['\\'], loc⟩ work segs = .error e := by
+  rcases hq with rfl | rfl <;> exact ⟨⟨loc.adv '\\'⟩, by simp [lexString, Scan.next]⟩
+
 end LexLit
 end Rscel
